@@ -220,6 +220,25 @@ Definition fetch_status_then_text (cs : list chunk) (tr : list snapshot) (i j : 
 Definition fetch_text_then_status (cs : list chunk) (tr : list snapshot) (i j : nat) : bool * list text :=
   (sn_exited (nth j tr snap0), poll_model (firstn (sn_written (nth i tr snap0)) (render cs))).
 
+(* Wire format.  json.dumps (ensure_ascii, the default used by dump_json_with_numpy)
+   writes every non-ASCII character of keys and string values as a \uXXXX escape:
+   a payload is ASCII-only text, and so are the tag prefix and the newline.
+   What the script's stdout encoding and the reader's decoding do to the stream
+   is modelled as a per-character substitution [f] (a character becomes any
+   sequence of characters: mojibake, replacement characters, nothing) that
+   leaves ASCII characters alone — true of ascii, latin-1, cp1252, utf-8, ... *)
+Definition is_ascii (c : ch) : bool := Z.leb 0 c && Z.ltb c 128.
+Definition ascii_text (t : text) : bool := forallb is_ascii t.
+Definition transcode (f : ch -> text) (t : text) : text := flat_map f t.
+Definition transcode_chunk (f : ch -> text) (c : chunk) : chunk :=
+  match c with Noise s => Noise (transcode f s) | Report p => Report p end.
+Fixpoint payloads_ascii (cs : list chunk) : bool :=
+  match cs with
+  | [] => true
+  | Noise _ :: r => payloads_ascii r
+  | Report p :: r => ascii_text p && payloads_ascii r
+  end.
+
 (* ---- sender: Reporter ---------------------------------------------------- *)
 
 (* one call of the reporter with keyword arguments *)
